@@ -13,6 +13,7 @@ import (
 	"path/filepath"
 	"regexp"
 	"strings"
+	"syscall"
 	"testing"
 	"time"
 	"unicode/utf8"
@@ -300,7 +301,25 @@ func runC12Exit(t testing.TB, c C12ExitCase) (key, what string) {
 		io.Close()
 	}
 	if !p.WaitOutput(20*time.Second, "Shell is gone") {
-		return "HARNESS", fmt.Sprintf("shell did not go away (%s/%s/%d): %s", c.Arrival, c.EndBy, c.Lines, tailOf(p.Output(), 700))
+		// what is the program doing?  ask it for a goroutine dump
+		before := len(p.Output())
+		p.Cmd.Process.Signal(syscall.SIGQUIT)
+		p.WaitExit(10 * time.Second)
+		dump := p.Output()[min(before, len(p.Output())):]
+		var interesting []string
+		for _, blk := range strings.Split(dump, "\n\n") {
+			if strings.Contains(blk, "curlrevshell/") && !strings.Contains(blk, "signal.") {
+				lines := strings.Split(blk, "\n")
+				var fns []string
+				for _, l := range lines {
+					if strings.HasPrefix(l, "goroutine ") || (strings.Contains(l, "curlrevshell/") && !strings.HasPrefix(l, "\t")) || strings.HasPrefix(l, "sync.") || strings.HasPrefix(l, "net/http.") {
+						fns = append(fns, clip(l, 110))
+					}
+				}
+				interesting = append(interesting, strings.Join(fns, " | "))
+			}
+		}
+		return "HARNESS", fmt.Sprintf("shell did not go away (%s/%s/%d): %s\nGOROUTINES: %s", c.Arrival, c.EndBy, c.Lines, tailOf(p.Output()[:before], 500), clip(strings.Join(interesting, "\n  "), 6000))
 	}
 	// it exits by itself, at the next entered line at the latest
 	if !p.WaitExit(1500 * time.Millisecond) {
